@@ -181,6 +181,9 @@ func checkC08(r *run, c *PayGenericCase) (CaseInfo, error) {
 				return ci, failf("%s: fragment %d is empty although the input is not", what, k)
 			}
 		}
+		if c.Payloader == "opus" && len(call.Data) > 0 && (len(snap) != 1 || !bytes.Equal(snap[0], call.Data)) {
+			return ci, failf("%s: Opus ignores the MTU and returns the input as one fragment, got %s", what, fragSummary(snap))
+		}
 		tout := twin.Payload(call.MTU, twinIn)
 		if !sameFrags(snap, tout) {
 			// the twin saw exactly the same call sequence on pristine buffers: a difference
@@ -425,7 +428,7 @@ func genPayGenericCase(t *rapid.T) *PayGenericCase {
 	return c
 }
 
-const ruleC08 = "rapid draws a payloader (G711, G722, Opus, H264 +-STAP-A, H265 x {AddDONL} x {SkipAggregation}, VP8 +-picture id, VP9 flexible/non-flexible, AV1) and 1-4 calls on one instance (VP8 with picture ids and VP9: one case in four first sends 1-32768 one-byte frames so that the running picture id sits at 125-129 or at the 15-bit wrap): MTU 0-65535 biased to 0-16/100/1200/65535, input nil, empty, random, or grammar-seeded (Annex-B NAL sequences incl. SPS/PPS/AUD and trailing start codes, OBU streams with extension bytes and lying size fields (also 5-11-byte LEB128 size fields up to and beyond 2^63), VP9 frames with generated headers) optionally mutated, and (one call in 80) inputs of 65534-131072 bytes incl. a jumbo SPS/PPS followed by a slice, or (H265) 2-4 units of 20000-45000 bytes that each fit the MTU; inputs sit in an arena with guard bytes and spare capacity. Oracle: no panic, every fragment <= MTU (Opus exempt) and non-empty for non-empty input, arena untouched, fragments independent of each other's spare capacity, and the twin/scribble relation: after each call the input arena is overwritten, fragments returned earlier must not change and every later output must equal that of a twin instance fed pristine copies. Non-trivial = a call returned >=1 fragment; distinct = FNV-64 of the JSON case"
+const ruleC08 = "rapid draws a payloader (G711, G722, Opus, H264 +-STAP-A, H265 x {AddDONL} x {SkipAggregation}, VP8 +-picture id, VP9 flexible/non-flexible, AV1) and 1-4 calls on one instance (VP8 with picture ids and VP9: one case in four first sends 1-32768 one-byte frames so that the running picture id sits at 125-129 or at the 15-bit wrap): MTU 0-65535 biased to 0-16/100/1200/65535, input nil, empty, random, or grammar-seeded (Annex-B NAL sequences incl. SPS/PPS/AUD and trailing start codes, OBU streams with extension bytes and lying size fields (also 5-11-byte LEB128 size fields up to and beyond 2^63), VP9 frames with generated headers) optionally mutated, and (one call in 80) inputs of 65534-131072 bytes incl. a jumbo SPS/PPS followed by a slice, or (H265) 2-4 units of 20000-45000 bytes that each fit the MTU; inputs sit in an arena with guard bytes and spare capacity. Oracle: no panic, every fragment <= MTU (Opus exempt: exactly one fragment equal to the input at every MTU) and non-empty for non-empty input, arena untouched, fragments independent of each other's spare capacity, and the twin/scribble relation: after each call the input arena is overwritten, fragments returned earlier must not change and every later output must equal that of a twin instance fed pristine copies. Non-trivial = a call returned >=1 fragment; distinct = FNV-64 of the JSON case"
 
 func TestC08(t *testing.T) {
 	r := begin(t, "C08", "exploration", ruleC08)
